@@ -1,6 +1,7 @@
 package mon
 
 import (
+	"fmt"
 	"math"
 	"reflect"
 	"strings"
@@ -22,6 +23,8 @@ type c23gen struct {
 	bounded bool // the request contains a function whose cost grows with geometric extent: only small, local geometry
 	safe    bool // functions that do their work in goroutines of their own: arguments that reach no known panic site
 	classes []string
+	touched []b6.FeatureID // features the earlier requests of a session added or changed
+	shorter bool           // a session replaced a feature by a shorter version of itself
 }
 
 // c23costScaling lists the functions whose legitimate cost grows with the extent
@@ -711,4 +714,67 @@ func (g *c23gen) forType(t reflect.Type, name string, depth int) b6.Expression {
 		return g.geojson(depth)
 	}
 	return g.any(depth)
+}
+
+// c23prelude: the earlier requests of a session. Features are added and then
+// replaced by versions of a different size (the stored feature is merged with
+// its replacement), tags come and go, and a few random changes are mixed in.
+// The ids are noted in g so that the main request can read what was touched.
+func c23prelude(r *core.R, g *c23gen) []b6.Expression {
+	var out []b6.Expression
+	pairs := func(n int) b6.Expression {
+		var kv []b6.Expression
+		for i := 0; i < n; i++ {
+			kv = append(kv, xInt(i), xStr(fmt.Sprintf("v%d", i)))
+		}
+		return xPairs(kv...)
+	}
+	members := func(n int) b6.Expression {
+		var kv []b6.Expression
+		for i := 0; i < n; i++ {
+			kv = append(kv, xID(fPointID(uint64(1+i%7))), xStr(core.Pick(r, []string{"", "stop", "via"})))
+		}
+		return xPairs(kv...)
+	}
+	for i, n := 0, r.Range(1, 2); i < n; i++ {
+		switch r.Intn(4) {
+		case 0: // a collection, then the same id again with fewer or more entries
+			id := fCollectionID(uint64(60 + r.Intn(3)))
+			a, b := r.Range(0, 6), r.Range(0, 6)
+			out = append(out, xCall("add-collection", xID(id), xPairs(), pairs(a)), xCall("add-collection", xID(id), xPairs(), pairs(b)))
+			g.touched = append(g.touched, id)
+			if b < a {
+				g.shorter = true
+			}
+		case 1: // a relation, then the same id with fewer or more members
+			id := fRelationID(uint64(60 + r.Intn(3)))
+			a, b := r.Range(0, 5), r.Range(0, 5)
+			out = append(out, xCall("add-relation", xID(id), xPairs(), members(a)), xCall("add-relation", xID(id), xPairs(), members(b)))
+			g.touched = append(g.touched, id)
+			if b < a {
+				g.shorter = true
+			}
+		case 2: // tags on a feature of the world, added, overwritten, removed
+			id := core.Pick(r, []b6.FeatureID{fPointID(1), fPathID(1), fAreaID(2), fRelationID(1), fCollectionID(1)})
+			k := core.Pick(r, []string{"name", "#amenity", "@ref"})
+			out = append(out, xCall("add-tag", xID(id), xTag(k, "first")), xCall("add-tag", xID(id), xTag(k, "second")))
+			if r.Bool() {
+				out = append(out, xCall("remove-tag", xID(id), xStr(k)))
+			}
+			g.touched = append(g.touched, id)
+		default:
+			out = append(out, g.change(1))
+		}
+	}
+	// and reads of what was touched
+	for _, id := range g.touched {
+		switch id.Type {
+		case b6.FeatureTypeCollection:
+			out = append(out, xCall("find-collection", xID(id)), xCall("count", xCall("find-collection", xID(id))))
+		case b6.FeatureTypeRelation:
+			out = append(out, xCall("find-relation", xID(id)))
+		}
+		out = append(out, xCall("find-feature", xID(id)), xCall("all-tags", xCall("find-feature", xID(id))))
+	}
+	return out
 }
